@@ -693,6 +693,40 @@ def _flag_edges(fn, terms, atom, removed, edge_atoms_fn):
     return out
 
 
+def phi_atom_impossible(fn, terms, atom, removed, reach, depth=0):
+    """(phi pred const) cannot hold on the CFG without the `removed` edges: no incoming edge of the (loop-free) phi that is
+    still reachable can deliver such a value.  Used for status / flag variables kept in locals (`st = helper(); if (st != OK)`
+    after the helper was expanded in place; `bad = false; ...; if (bad)`)."""
+    a = norm_atom(atom)
+    if depth > 4 or a[0] != 'cmp' or a[1] not in ('eq', 'ne') or a[2][0] != 'phi' or a[3][0] != 'const':
+        return False
+    phi = fn.insts.get(a[2][1])
+    # a join inside a loop body is fine (its value is set by the edge taken in the current iteration); a loop-header phi is not
+    if phi is None or phi.op != 'phi' or phi.block.id in fn.loops:
+        return False
+    c = a[3][1]
+    for bid, v in phi.incoming:
+        if (bid, phi.block.id) in removed or bid not in reach:
+            continue
+        kv = const_of(v)
+        if kv is not None:
+            if (kv == c) == (a[1] == 'eq'):
+                return False
+            continue
+        tv = terms.term(v)
+        pb = fn.bmap[bid]
+        ea = list(atoms_at(fn, terms, pb))
+        for s2, lab in out_edges(pb):
+            if s2 is phi.block and lab is not None and lab[0] == 'br':
+                ea.extend(cond_atoms(terms, lab[1], lab[2]))
+        if has_atom(ea, NEG[a[1]], tv, ('const', c)):
+            continue
+        if phi_atom_impossible(fn, terms, ('cmp', a[1], tv, ('const', c)), removed, reach, depth + 1):
+            continue
+        return False
+    return True
+
+
 def flag_provenance(fn, terms, atoms, removed, edge_atoms_fn, depth=0):
     """Facts implied by atoms about boolean flags kept in locals (`bad = false; if (..) bad = true; ... if (bad) error`): when
     exactly one incoming edge of the flag's phi is compatible with the atom, the conditions of that edge hold as well."""
